@@ -37,6 +37,9 @@ func (valdec arrayDecoder) Decode(dec *Decoder, p interface{}, tag byte) {
 	case TagList:
 		length := valdec.at.Len()
 		count := dec.ReadCount()
+		if !dec.enter() {
+			count = 0
+		}
 		array := reflect2.PtrOf(p)
 		dec.AddReference(p)
 		n := length
@@ -44,7 +47,7 @@ func (valdec arrayDecoder) Decode(dec *Decoder, p interface{}, tag byte) {
 			n = count
 		}
 		et := valdec.et.Type1()
-		for i := 0; i < n; i++ {
+		for i := 0; i < n && dec.Error == nil; i++ {
 			valdec.decodeElem(dec, et, valdec.at.UnsafeGetIndex(array, i))
 		}
 		switch {
@@ -58,7 +61,7 @@ func (valdec arrayDecoder) Decode(dec *Decoder, p interface{}, tag byte) {
 				valdec.decodeElem(dec, et, temp)
 			}
 		}
-		dec.Skip()
+		dec.leave()
 	default:
 		dec.defaultDecode(valdec.at.Type1(), p, tag)
 	}
